@@ -96,7 +96,21 @@ desired − min allows), C06-8 (int64 overflow of request×100 above 92 TB: it w
 but not by the C06 histories, whose groups were too small; one group in 25 now has nodes of 12-17 TB of memory, so group
 totals reach 10^17-10^18 milli-bytes).
 
-After that all one hundred and thirty-three are caught by the quick check of the property they were written against
+An eighth round was adversarial: six agents got all twenty statements, were told in one sentence what kind of checker they
+were up against (runs the code on generated histories against simulated services, with fault injection and a virtual
+clock - nothing else from /verif) and were asked for bugs such a checker would *probably miss*. 12 confirmed changes, only 4
+caught at first try. Seven of the eight misses hide behind **fields of the objects that escalator never reads**, so my
+generators never varied them: the nodes' `Ready` condition (C08-6, C08-7: NotReady nodes sorted first for tainting), the
+`restartPolicy` of init containers (C13-8, C13-9: sidecars summed instead of max-ed), owner lists with a `controller` flag
+(C14-6), whitespace-only values of the no-delete annotation (C10-7), a zero, negative or unparsable
+`fleet_instance_ready_timeout` (C20-11: `NewTicker` panic); the eighth needs the cloud group to be pinned at run time to
+minimum = maximum (C03-6: refresh of auto-discovered bounds kept only when min < max). All eight shapes were added - to
+the C13 multisets, to C14's exhaustively enumerated owner lists (286 692 → 573 384 pod shapes per group), to C18's failure
+points, and to the histories through a *second* per-group PRNG stream so that the histories explored so far stay the same
+except where a new shape occurs - with coverage floors for each. The lesson is recorded in section 7: a generator built
+from what the code reads today does not cover what a changed version might start to read.
+
+After that all one hundred and forty-five are caught by the quick check of the property they were written against
 (`bin/regress_seeded` re-runs all of them against a scratch copy of /repo and rewrites the `detection` entries).
 
 | Seeded change | Files | What was changed | Needs, to manifest | Quick check of that property |
